@@ -898,6 +898,60 @@ def describe(line):
 
 # ------------------------------------------------------------------------------------------------
 
+# ---- block tags nested 7..13 deep (Level = number of enclosing block tags): loops at the 8/9 boundary ----
+_DEEPVARS = ["Xa", "Xb", "Xc", "Xd"]
+
+
+def deep_template(rng):
+    depth = rng.choice([7, 8, 8, 9, 9, 9, 10, 10, 11, 12, 13])
+    n_outer = rng.randrange(2, 4)
+    outer = ("a", [("n", rng.randrange(0, 30)) for _ in range(n_outer)]) if rng.random() < 0.6 else \
+        ("o", [(U(k), ("n", rng.randrange(0, 30))) for k in rng.sample(["p", "q", "k", "d"], n_outer)])
+    inner = ("a", [("s", U(rng.choice(["x", "y", "<z>", "w"]))) for _ in range(rng.randrange(1, 4))])
+    doc = ("o", [(U("l"), outer), (U("m"), inner), (U("n"), ("n", rng.randrange(1, 9)))])
+    mid = ["I"] * (depth - 2)
+    for pos in rng.sample(range(depth - 2), rng.randrange(0, 3)):
+        mid[pos] = "L"
+    kinds = ["L"] + mid + ["L"]
+    names, j = [], 0
+    for k in kinds:
+        names.append(_DEEPVARS[j] if k == "L" else None)
+        j += (k == "L")
+    used = [v for v in names if v]
+
+    def build(i):
+        if i == len(kinds):
+            return "[" + "".join("{var:%s}" % v for v in used) + "]"
+        body = build(i + 1) + ("{var:%s};" % names[0] if rng.random() < 0.7 else "")
+        if kinds[i] == "L":
+            st = "l" if i == 0 else ("m" if i == len(kinds) - 1 or rng.random() < 0.5 else "l")
+            return '<loop set="%s" value="%s">%s</loop>' % (st, names[i], body)
+        return '<if case="%s">%s</if>' % (rng.choice(["1", "{var:n}", "2 > 1", "{var:%s} >= 0" % names[0]]), body)
+    return build(0), doc
+
+
+# ---- super-variable phrases with `{u}`, u a non-digit unit whose low byte is 0x30..0x39 ----
+_WIDE16 = [0x0130, 0x0131, 0x0430, 0x0431, 0x0433, 0x0439, 0x0630, 0x0633, 0x0639, 0x3030, 0x3031, 0xFF30, 0xFF35]
+_WIDE32 = [0x10030, 0x10031, 0x1F630, 0x10FF39]
+
+
+def wide_phrase_item(rng, w):
+    pool = _WIDE16 + (_WIDE32 if w in ("4", "W") else [])
+    phrase = []
+    for _ in range(rng.randrange(1, 4)):
+        x = rng.random()
+        if x < 0.6:
+            phrase += [123, rng.choice(pool), 125]
+        elif x < 0.8:
+            phrase += [123, 48 + rng.randrange(0, 6), 125]
+        else:
+            phrase += [rng.choice(pool), rng.choice([97, 32, 123, 125])]
+    nargs = rng.randrange(4, 10)
+    doc = ("o", [(U("ph"), ("s", phrase)), (U("a"), ("n", 7)), (U("b"), ("s", U("B")))])
+    t = "{svar:ph" + "".join(", " + rng.choice(["{var:a}", "{raw:b}", "{math:1+1}"]) for _ in range(nargs)) + "}"
+    return (w, enc(doc), U(t))
+
+
 def gen_streams(ctx):
     """returns {stream: [(w, doc string, units)]} for the compared streams and the C++-only ones"""
     rng = ctx.rng
@@ -918,6 +972,10 @@ def gen_streams(ctx):
         if i % 3 == 0:
             root = gen_root(rng, big=True)
         well.append(("1", enc(root), U(TG(rng, root, nomath=True).template())))
+    for _ in range(400 if not th else 3000):
+        t, d = deep_template(rng)
+        well.append(("1", enc(d), U(t)))
+        base.append((t, d))
     # a few templates against every kind of root
     for t, _ in base[:60]:
         for d in (("u",), ("z",), ("t",), ("n", 5), ("i", -5), ("s", U("x{0}")), ("a", []), ("o", []), ("a", [("u",)]), ("o", [(U("a"), ("u",))])):
@@ -990,6 +1048,8 @@ def gen_streams(ctx):
                     out.append((w, enc(tree), [x & mask for x in uu]))
         return out
     well_w = wide(well, 5 if not th else 1)
+    for _ in range(600 if not th else 4000):
+        well_w.append(wide_phrase_item(rng, rng.choice("24W")))
     mal_w = wide(mal, 5 if not th else 4)
     g3_w = wide(g3, 5 if not th else 3)
     # negative wchar_t units (>= 0x80000000) are outside the generated domain; two probes on the real
